@@ -328,7 +328,9 @@ def r8_include_lines(ctx, rep):
                     node = c
     if rec is None:
         raise AnalysisError("FortranReader.include: the test that recognises an INCLUDE line was not found")
-    ref = rx.full(r"include\s*(?:'[^']*'|\"[^\"]*\")\s*", re.IGNORECASE)
+    # no other Fortran statement begins with the keyword directly followed by a quote, so anything between the outer quotes
+    # is accepted
+    ref = rx.full(r"include\s*(?:'.*'|\".*\")\s*", re.IGNORECASE)
     w = rx.witness(rx.conj(rec, rx.neg(ref), rx.full(r"[a-z =0-9'\"_.]*", re.IGNORECASE)))
     rep.ob("only `include <character literal>` is taken for an INCLUDE line", w is None,
            "the recogniser requires the quoted file name" if w is None else
